@@ -32,6 +32,9 @@ pub enum Ev20 {
     Scratch(String),
     /// Basic: retain_all_current_data + optimize(&[]); nothing on Simple
     Compact,
+    /// SimpleGarnishData: a complete run of a tenant on a *working copy* of the shared object (everything so far
+    /// marked as constant data, `clone_with_aux_without_data`): the template-plus-copy way of using that store
+    RunOnCopy(usize),
 }
 
 #[derive(Clone, Debug, Serialize, Deserialize)]
@@ -402,6 +405,44 @@ fn execute_in<D: SimData>(sc: &Sc20) -> Outcome {
                     out.count("f8_compactions", 1);
                 }
             }
+            Ev20::RunOnCopy(tenant) => {
+                let Some(Some((b, _))) = built.get(*tenant) else { continue };
+                let b = b.clone();
+                let Some(copy) = d.working_copy() else { continue };
+                let Ok(mut copy) = copy else {
+                    out.probe("working-copy-refused");
+                    continue;
+                };
+                sh.str("run-on-copy");
+                out.probe("tenant-run-on-a-working-copy");
+                let r = run_to_end(&mut copy, b.entry_jump, b.jumps.0, &sc.tenants[*tenant].input, MAX_STEPS);
+                out.count("steps", r.steps as u64);
+                th.str(&r.status);
+                th.str(&format!("{:?}", r.result));
+                if let Some(p) = r.status.strip_prefix("panic:") {
+                    out.foreign_panic = Some(p.to_string());
+                }
+                let solo_run = solos[*tenant].run.clone().expect("solo run");
+                if solo_run.status == "err:underflow" || solo_run.status == "budget" || r.status == "budget" {
+                    continue;
+                }
+                comparisons += 1;
+                if r.status != solo_run.status && !(r.status.starts_with("panic") && solo_run.status.starts_with("panic")) {
+                    out.violate("C20.N3.copy-status", format!("tenant {} ({:?}) on a working copy: {} solo {}", tenant, sc.tenants[*tenant].src, r.status, solo_run.status));
+                    break 'events;
+                }
+                if r.result != solo_run.result {
+                    out.violate(
+                        "C20.N3.copy-result",
+                        format!("tenant {} ({:?}) on a working copy: {:?} solo {:?}", tenant, sc.tenants[*tenant].src, r.result.as_ref().map(|v| v.short()), solo_run.result.as_ref().map(|v| v.short())),
+                    );
+                    break 'events;
+                }
+                if r.log != solo_run.log {
+                    out.violate("C20.N3.copy-host-history", format!("tenant {} ({:?}) on a working copy: {:?} solo {:?}", tenant, sc.tenants[*tenant].src, r.log, solo_run.log));
+                    break 'events;
+                }
+            }
             Ev20::Run { tenant, abandon_after, cleanup_full, pop_result } => {
                 let Some(Some((b, _))) = built.get(*tenant) else { continue };
                 let b = b.clone();
@@ -609,6 +650,10 @@ impl Campaign for C20 {
                     6 => events.push(Ev20::FailedBuild(
                         rng.pick(&["1 + 5abc", "{ 7 } <~ (3 ?> 5abc |> 2)", "(t1 && 9zz) || 4", ":ka = { 2 + 2 } 5abc"]).to_string(),
                     )),
+                    7 if !basic && !built_so_far.is_empty() && rng.chance(1, 2) => {
+                        let tenant = *rng.pick(&built_so_far);
+                        events.push(Ev20::RunOnCopy(tenant));
+                    }
                     7 => events.push(Ev20::HostAdd(crate::c19::random_value(rng, 2))),
                     9 => events.push(Ev20::Scratch(
                         rng.pick(&[
@@ -717,6 +762,14 @@ impl Campaign for C20 {
             mk(false, &["5", "(7, :a = 1).a"]),
             mk(false, &["5 + 6", "(7, :a = 1).a"]),
             mk(false, &["5 + 6 + 7", "(7, 8, :a = 1).a"]),
+            // D27 (fixed): two equal values left behind by earlier executions, then a tenant built and run on a working copy
+            Sc20 {
+                basic: false,
+                knobs: Knobs::default(),
+                tenants: vec![Tenant { src: "5".into(), input: Val::Unit }, Tenant { src: "(1, 1) (1, 1)".into(), input: Val::Unit }],
+                script: HostScript::default(),
+                events: vec![Ev20::Build(1), Ev20::Run { tenant: 1, abandon_after: None, cleanup_full: false, pop_result: true }, Ev20::Run { tenant: 1, abandon_after: None, cleanup_full: false, pop_result: true }, Ev20::Build(0), Ev20::RunOnCopy(0), Ev20::RunOnCopy(1)],
+            },
             // the repository's own 'jumping_wrong_index' script as a later tenant
             mk(true, &["10 + 5", ":first_item = { $? ?> 987 |> 100 }\n:circle1 = { 10 + 5 }\n\n($.first_item~~)"]),
         ]
